@@ -70,7 +70,10 @@ class C11(UdpCheck):
             "the attacker delivers, through TwistedServer.datagramReceived or the _UdpServer receive loop, bulk hostile "
             "datagrams: random bytes of every length up to the receive size, valid magic + random rest, valid header + random "
             "body, genuine CLIENT_HELLOs replayed from thousands of fresh addresses, CRC-repaired bit-flipped/truncated/short "
-            "hellos, from claimed sources incl. established clients, block-listed IPs and source port 0; block list in "
+            "hellos, from claimed sources incl. established clients, block-listed IPs (also as IPv4-mapped peer of a dual stack socket) "
+            "and source port 0; in 1/3 of multi-client runs one client that completed the handshake turns hostile and its address "
+            "sends datagrams sealed under its own session key with content no honest sender produces (every message type, bad "
+            "fragment headers, count/length mismatches, 255 empty messages, oversized); block list in "
             "{empty, attacker, attacker+one honest client}; every MTU class.  non-trivial = at least 1000 hostile datagrams "
             "reached the server socket and honest traffic was echoed; distinct = event-order digest")
 
@@ -108,7 +111,16 @@ class C11(UdpCheck):
             plan.append({"op": "flood", "global": True, "t": round(0.6 + rng.random() * (dur - 4.5), 3), "kind": kind,
                          "srcmode": srcmode, "count": rng.choice([100, 400, 1500]), "spread": rng.choice([0.0, 0.05, 0.5]),
                          "n": j, "victim": rng.randrange(n)})
-        if n > 1 and rng.random() < 0.25:
+        if n > 1 and blocked_client is None and rng.random() < 0.35:
+            # one client that completed the handshake turns hostile: it stops its own loop and from then on its address
+            # sends datagrams sealed under ITS session key whose content no honest sender would produce
+            ins = n - 1
+            cfg["insider"] = ins
+            t0 = round(2.0 + rng.random() * (dur - 7.0), 3)
+            for j in range(rng.choice([1, 2, 4])):
+                plan.append({"op": "insider", "global": True, "t": round(t0 + 0.05 + 0.4 * j, 3), "c": ins, "n": j,
+                             "count": rng.choice([20, 60, 200]), "spread": rng.choice([0.0, 0.2])})
+        if n > 1 and "insider" not in cfg and rng.random() < 0.25:
             # the kernel refuses datagrams towards ONE honest client for a while: the others must not notice
             victim = rng.randrange(n)
             plan.append({"op": "sockerr", "t": round(1.5 + rng.random() * (dur - 6), 3), "d": rng.choice([0.3, 0.8]), "c": victim})
@@ -125,6 +137,9 @@ class C11(UdpCheck):
     def prepare(self, w, case):
         Attacker(w)
         w.custom_ops["flood"] = self.op_flood
+        w.custom_ops["insider"] = self.op_insider
+        self.insider_seq = None
+        self.insider_key = None
 
     def op_flood(self, w, _node, op):
         att = w.attacker
@@ -196,6 +211,69 @@ class C11(UdpCheck):
             w.net.inject(src, SERVER_ADDR, d, delay=op["spread"] * j / max(1, op["count"]), meta={"gen": "flood-" + kind})
         w.probe("flood_from_" + op["srcmode"])
 
+    def op_insider(self, w, _node, op):
+        """Datagrams that authenticate under the session key of a client that finished the handshake, with content
+        no honest sender produces (built with the reference codec)."""
+        cn = w.clients[op["c"]]
+        if self.insider_key is None:
+            conn = getattr(cn.client, "conn", None) if cn.client is not None else None
+            if conn is None or not cn.client.connected():
+                return
+            self.insider_key = conn.session_key_bytes
+            w.app_event(cn.name, cn.inc, "crash")
+            cn.crash()                  # its own loop stops; the address lives on in the attacker's hands
+        key = self.insider_key
+        rng = random.Random("insider|%s|%s" % (w.cfg["seed"], op["n"]))
+        if self.insider_seq is None:
+            self.insider_seq = w.attacker.last_hdr.get(cn.name, {"seq": 1})["seq"]     # newest seen on the wire
+        src = client_addr(op["c"])
+        cap = w.cfg["mtu"] - 28 - R.HDR - R.TAG
+        for j in range(op["count"]):
+            self.insider_seq = R.ring_add(self.insider_seq, rng.choice([1, 1, 1, 2, 7]))
+            kind = rng.choice(["types", "types", "frag", "frag", "frag", "count", "length", "many", "empty", "big"])
+            typ = R.T_APP
+            count = None
+            length = None
+            ms = rng.randrange(1, 65536)
+            if kind == "types":
+                inner = [rng.choice([0, 1, 2, 3, 4, 5, 8, 9, 200, 255]) for _ in range(rng.choice([1, 2, 5]))]
+                inner = [t for t in inner if t != 5 or rng.random() < 0.2]      # DISCONNECT only now and then
+                msgs = [(R.ring_add(ms, i), t, rng.randbytes(rng.choice([0, 1, 4, 100, 180]))) for i, t in enumerate(inner)]
+                typ = inner[0] if inner and rng.random() < 0.5 else rng.randrange(0, 10)
+            elif kind == "frag":
+                fid = rng.randrange(65536)
+                cnt = rng.choice([0, 1, 2, 3, 0xFFFF, 0x2000, 0x2001])
+                idx = rng.choice([0, 1, 2, cnt, cnt + 1 & 0xFFFF, 0xFFFF])
+                body = struct.pack(">HHH", fid, idx, cnt) + rng.randbytes(rng.choice([0, 0, 1, 50]))
+                if rng.random() < 0.25:
+                    body = body[: rng.randrange(0, 6)]          # shorter than the fragment header
+                msgs = [(ms, R.T_APP_FRAGMENT, body)]
+                if rng.random() < 0.4:
+                    msgs.append((R.ring_add(ms, 1), R.T_APP_FRAGMENT, struct.pack(">HHH", fid, 1, 1) + b"x"))
+                typ = R.T_APP_FRAGMENT
+            elif kind == "count":
+                msgs = [(R.ring_add(ms, i), R.T_APP, b"abc") for i in range(rng.choice([1, 2, 3]))]
+                count = rng.choice([0, 1, 2, 4, 255])
+            elif kind == "length":
+                msgs = [(ms, R.T_APP, rng.randbytes(40))]
+                length = rng.choice([0, 1, 2, 41, 43, 1000, 65535])
+            elif kind == "many":
+                msgs = [(R.ring_add(ms, i), R.T_APP, b"") for i in range(rng.choice([200, 255]))]
+            elif kind == "empty":
+                msgs = []
+                count = rng.choice([0, 0, 1, 2])
+            else:
+                msgs = [(ms, R.T_APP, rng.randbytes(rng.choice([cap - 2, cap - 1, cap, cap + 400])))]
+            body = R.enc_payload(msgs)
+            base = w.attacker.last_hdr.get("S", {"seq": 0})
+            h = R.enc_header(False, int(w.k.now) + 1_700_000_000, self.insider_seq, base["seq"], typ,
+                             (len(body) if length is None else length) & 0xFFFF, (len(msgs) if count is None else count) & 0xFF,
+                             rng.choice([0, 0xFFFFFFFF, rng.randrange(2 ** 32)]))
+            d = R.seal_gcm(key, h, body)
+            w.attacker.count("insider-" + kind)
+            w.net.inject(src, SERVER_ADDR, d, delay=op["spread"] * j / max(1, op["count"]), meta={"gen": "insider-" + kind})
+        w.probe("insider_flood")
+
     def nontrivial(self, w, case):
         hostile = sum(v for k, v in w.injections.items())
         return hostile >= 1000 and any(d[1] != "S" for d in w.delivs)
@@ -235,6 +313,8 @@ class C11(UdpCheck):
         for cn in w.clients:
             if cfg.get("sockerr_victim") == cn.idx:
                 continue        # this client's own datagrams were refused by the (simulated) kernel: only the OTHERS are judged
+            if cfg.get("insider") == cn.idx:
+                continue        # turned hostile: whatever the server does to it, only the OTHERS are judged
             if cfg.get("blocked_client") == cn.idx:
                 if cn.client is not None and cn.client.connected():
                     vs.append({"kind": "blocked_client_connected", "key": entry, "detail": cn.name})
@@ -252,7 +332,7 @@ class C11(UdpCheck):
                                    "detail": {"client": cn.name, "len": rec["len"], "t_sent": rec["t"], "bound": round(B, 3)}})
                         break
         for t, kind, cid, th, extra in w.hev:
-            if kind == "disconnect":
+            if kind == "disconnect" and not ("insider" in cfg and tuple(extra[:2]) == tuple(client_addr(cfg["insider"]))):
                 vs.append({"kind": "honest_client_disconnected_by_server", "key": entry, "detail": {"t": t, "addr": extra}})
         vs += self.qc.judge(w, 3 * max(cfg["server"]["interval"], 1 / 60) + cfg["reactor_lag"] + cfg.get("wake_lag", 0) + 0.02)
         w.maxima["temp_pool_size"] = mon.temp_pool_max
